@@ -282,7 +282,7 @@ func C15(r *core.Run) {
 	r.Cov["exit_statuses"] = tot.Exits
 	r.Cov["exhaustive"] = len(deaths) == 0
 	r.Cov["bound"] = map[string]any{"decoy_subsets": len(masks), "decoy_groups": len(c15Decoys), "commands": len(c15Commands()), "dir_modes": 4}
-	r.Cov["rule"] = "every decoy subset x every command x 4 ways of naming the root, each executed with the real CLI in a fresh sandbox (root crs/, a second root beside it, files in the parent directory, HOME and TMPDIR inside the sandbox); recursive snapshot (type, mode, size, sha256, mtime, inode; mtimes preset to 2001) before/after; states = sandbox trees, transitions = command executions; non-trivial = distinct (command, set of changed paths) observed"
+	r.Cov["rule"] = "every decoy subset x every command x 4 ways of naming the root, each executed with the real CLI in a fresh sandbox (root crs/, a second root beside it, files in the parent directory, HOME and TMPDIR inside the sandbox); recursive snapshot (type, mode, size, sha256, mtime, inode; mtimes preset to 2001) before/after; states = sandbox trees, transitions = command executions; non-trivial = distinct (command, set of changed paths) observed; commands include arguments that resolve to decoys (other extensions, disabled test files) and ten commands addressed at targets that do not exist; the tree holds files that make the linter complain"
 	r.Cov["samples"] = core.Samples(sets, 6)
 	r.Assume = append(r.Assume, "writes outside the sandbox directory (other than HOME/TMPDIR, which are redirected into it) are not observed")
 }
